@@ -169,3 +169,100 @@ Theorem C09_literals_tied :
   Z.of_nat frm_max_len = ENCODE_MAX_LEN /\ ENCODE_TEMPLATE = "!{},{},{},{},{},{},{}*{:02X}"%string.
 Proof. split; reflexivity. Qed.
 Print Assumptions C09_literals_tied.
+
+(* ================================================================================================ *)
+(* Composition with the decoder (Proofs/EndToEnd.v): the clause "the sentences taken together are accepted by the
+   decoder" as a theorem about the decoder MODEL (Model/Nmea.v produce, Model/DecodeApi.v decode_api = pyais.decode)
+   instead of about the reading functions of Spec/FrameSpec.v.  Frame.v's strings (lists of character codes) and the
+   byte strings of Spec/CarrierSpec.v are both list Z; for the ASCII text the encoder writes, str.encode() is the
+   identity on codes, so the sentences are handed to the decoder model as they are. *)
+Require Import Model.Sentence Model.Nmea Model.DecodeApi Spec.CarrierSpec Proofs.EndToEnd.
+
+(* What ais_to_nmea_0183 emits is a member of the carrier family of its payload (Spec/CarrierSpec.v, the quantifier of
+   C04): for every armored payload of 1..300 characters (at most five fragments of 60 -- the family has at most five
+   parts; the longest AIS message has 178 characters), both talkers, both channels, fill 0..5, the sentences are
+   "!AIVDM|AIVDO,n,i,seq,chan,chunk_i,fill_i*HH" with one-digit n and i, seq = 0 when n > 1 and empty otherwise, the
+   fill on the last fragment only, two hex digits of checksum, no tag block, nothing trailing, in fragment order. *)
+Theorem C09_frame_is_carrier : forall (p talker channel : list Z) (fill : nat),
+  (talker = frm_AIVDM \/ talker = frm_AIVDO) -> (channel = [65] \/ channel = [66]) ->
+  Forall (fun c => fs_armor_alphabet c = true) p -> (1 <= length p <= 300)%nat -> (fill <= 5)%nat ->
+  exists ss, ais_to_nmea_0183 p talker channel (Z.of_nat fill) = Ok ss /\ is_carrier p fill ss.
+Proof. exact frame_is_carrier. Qed.
+Print Assumptions C09_frame_is_carrier.
+
+(* For EVERY bit string of 1..1800 bits: armoring and framing succeed, and pyais.decode( *sentences ) -- parser,
+   _assemble_messages, assemble_from_iterable, AISSentence.decode -- returns exactly what the payload decoder makes of
+   the bits that were encoded: the decoder accepts the sentences and sees the encoded bits, none lost, none added.
+   (If the bits are no decodable message -- an unknown type id, say -- both sides are the same exception.)
+   From C09_frame_is_carrier, C04_bits and C09_armor_roundtrip. *)
+Theorem C09_accepted_by_decoder : forall (b : bits) (talker channel : list Z),
+  (talker = frm_AIVDM \/ talker = frm_AIVDO) -> (channel = [65] \/ channel = [66]) -> (1 <= length b <= 1800)%nat ->
+  exists p fill ss,
+    encode_ascii_6 b = Ok (p, fill) /\
+    ais_to_nmea_0183 p talker channel (Z.of_nat fill) = Ok ss /\
+    is_carrier p fill ss /\
+    mmap snd (decode_api false ss) = decode_bits b.
+Proof. exact accepted_by_decoder. Qed.
+Print Assumptions C09_accepted_by_decoder.
+
+(* the entry points: the sentences of encode_msg / encode_dict decode to what decode_bits makes of msg.to_bitarray() *)
+Theorem C09_encode_msg_accepted : forall (c : cls) (vs : list value) (b : bits) (talker channel : list Z),
+  (talker = frm_AIVDM \/ talker = frm_AIVDO) -> (channel = [65] \/ channel = [66]) ->
+  to_bitarray c vs = Ok b -> (1 <= length b <= 1800)%nat ->
+  exists ss, encode_msg (c, vs) talker channel = Ok ss /\ mmap snd (decode_api false ss) = decode_bits b.
+Proof. exact encode_msg_accepted. Qed.
+Print Assumptions C09_encode_msg_accepted.
+
+Theorem C09_encode_dict_accepted : forall (data : list (string * value)) (t : Z) (c : cls) (vs : list value) (b : bits)
+                                          (talker channel : list Z),
+  (talker = frm_AIVDM \/ talker = frm_AIVDO) -> (channel = [65] \/ channel = [66]) ->
+  get_ais_type data = Ok t -> create_msg t data = Ok (c, vs) -> to_bitarray c vs = Ok b -> (1 <= length b <= 1800)%nat ->
+  exists ss, encode_dict data talker channel = Ok ss /\ encode_msg (c, vs) talker channel = Ok ss /\
+             mmap snd (decode_api false ss) = decode_bits b.
+Proof. exact encode_dict_accepted. Qed.
+Print Assumptions C09_encode_dict_accepted.
+
+(* The str -> bytes step between the two APIs: encode_dict / encode_msg return str, decode() encodes every str argument
+   as UTF-8 first.  Every character the encoder model writes is ASCII, where that encoding is the identity on codes --
+   which is why the statements above hand the character lists to the decoder model unchanged. *)
+Theorem C09_frame_ascii : forall (p talker channel : list Z) (fill : Z) ss,
+  (talker = frm_AIVDM \/ talker = frm_AIVDO) -> (channel = [65] \/ channel = [66]) ->
+  Forall (fun c => fs_armor_alphabet c = true) p -> (1 <= length p)%nat ->
+  ais_to_nmea_0183 p talker channel fill = Ok ss -> Forall (Forall (fun c => 0 <= c < 128)) ss.
+Proof. exact frame_ascii. Qed.
+Print Assumptions C09_frame_ascii.
+
+(* non-vacuity: the 424 bits of a real type 5 message (71 characters, 2 fill bits) satisfy the hypotheses; the encoder
+   model frames them as two sentences
+       !AIVDO,2,1,0,B,538CQ>02A;h?D9QC800pu8@T>0P4l9E8L0000017Ah:;;5r50Ahm5;C0F@V@,0*17
+       !AIVDO,2,2,0,B,00000000000,2*25
+   which are a carrier of the payload, and the decoder model turns them back into the MessageType5 that the payload
+   decoder reads from the bits -- all by vm_compute *)
+Definition c09_ex_payload : list Z :=
+  [53; 51; 56; 67; 81; 62; 48; 50; 65; 59; 104; 63; 68; 57; 81; 67; 56; 48; 48; 112; 117; 56; 64; 84; 62; 48; 80; 52;
+   108; 57; 69; 56; 76; 48; 48; 48; 48; 48; 49; 55; 65; 104; 58; 59; 59; 53; 114; 53; 48; 65; 104; 109; 53; 59; 67; 48;
+   70; 64; 86; 64; 48; 48; 48; 48; 48; 48; 48; 48; 48; 48; 48].
+
+Example C09_accepted_nonvacuous : exists b s1 s2 nmea vs,
+  decode_into_bit_array c09_ex_payload 2 = Ok b /\ (1 <= length b <= 1800)%nat /\
+  encode_ascii_6 b = Ok (c09_ex_payload, 2%nat) /\
+  ais_to_nmea_0183 c09_ex_payload frm_AIVDO [66] 2 = Ok [s1; s2] /\
+  s2 = [33; 65; 73; 86; 68; 79; 44; 50; 44; 50; 44; 48; 44; 66; 44; 48; 48; 48; 48; 48; 48; 48; 48; 48; 48; 48; 44; 50;
+        42; 50; 53] /\
+  is_carrier c09_ex_payload 2 [s1; s2] /\
+  decode_api false [s1; s2] = Ok (nmea, (MessageType5, vs)) /\ decode_bits b = Ok (MessageType5, vs) /\
+  nth 6 vs VNone = VStr [78; 79; 82; 68; 73; 67; 32; 72; 65; 77; 66; 85; 82; 71].       (* shipname = "NORDIC HAMBURG" *)
+Proof.
+  eexists. eexists. eexists. eexists. eexists.
+  split; [vm_compute; reflexivity|]. split; [vm_compute; split; apply Nat.leb_le; reflexivity|].
+  split; [vm_compute; reflexivity|]. split; [vm_compute; reflexivity|]. split; [reflexivity|].
+  split.
+  { destruct (frame_is_carrier c09_ex_payload frm_AIVDO [66] 2) as (ss & Hss & Hc).
+    - right; reflexivity.
+    - right; reflexivity.
+    - apply is_armor_armored. vm_compute. reflexivity.
+    - vm_compute. split; apply Nat.leb_le; reflexivity.
+    - apply Nat.leb_le. reflexivity.
+    - vm_compute in Hss. injection Hss as <-. exact Hc. }
+  split; [vm_compute; reflexivity|]. split; vm_compute; reflexivity.
+Qed.
